@@ -1,0 +1,69 @@
+//go:build verif
+
+package relay
+
+import (
+	"time"
+
+	"github.com/libp2p/go-libp2p/core/peer"
+)
+
+// Read-only white-box accessors for the runtime-monitoring harness (/verif, property C11).
+// Compiled only with the `verif` build tag; nothing here mutates relay state.
+
+// VerifPeerExpiry is one entry of a constraints list.
+type VerifPeerExpiry struct {
+	Peer   peer.ID
+	Expiry time.Time
+}
+
+// VerifState is a consistent copy of the relay's bookkeeping.
+type VerifState struct {
+	Closed bool
+	Rsvp   map[peer.ID]time.Time        // Relay.rsvp
+	Conns  map[peer.ID]int              // Relay.conns (open circuit ends per peer)
+	Total  []VerifPeerExpiry            // constraints.total
+	IPs    map[string][]VerifPeerExpiry // constraints.ips
+	ASNs   map[uint32][]VerifPeerExpiry // constraints.asns
+}
+
+func verifCopyList(in []peerWithExpiry) []VerifPeerExpiry {
+	out := make([]VerifPeerExpiry, 0, len(in))
+	for _, pe := range in {
+		out = append(out, VerifPeerExpiry{Peer: pe.Peer, Expiry: pe.Expiry})
+	}
+	return out
+}
+
+// VerifState copies rsvp, conns and the constraints lists under the relay's own locks.
+func (r *Relay) VerifState() VerifState {
+	r.mx.Lock()
+	defer r.mx.Unlock()
+	st := VerifState{
+		Closed: r.closed,
+		Rsvp:   make(map[peer.ID]time.Time, len(r.rsvp)),
+		Conns:  make(map[peer.ID]int, len(r.conns)),
+		IPs:    map[string][]VerifPeerExpiry{},
+		ASNs:   map[uint32][]VerifPeerExpiry{},
+	}
+	for p, e := range r.rsvp {
+		st.Rsvp[p] = e
+	}
+	for p, n := range r.conns {
+		st.Conns[p] = n
+	}
+	c := r.constraints
+	c.mutex.Lock()
+	defer c.mutex.Unlock()
+	st.Total = verifCopyList(c.total)
+	for k, l := range c.ips {
+		st.IPs[k] = verifCopyList(l)
+	}
+	for k, l := range c.asns {
+		st.ASNs[k] = verifCopyList(l)
+	}
+	return st
+}
+
+// VerifResources returns a copy of the resource configuration the relay runs with.
+func (r *Relay) VerifResources() Resources { return r.rc }
